@@ -77,3 +77,17 @@ Theorem C05_source_consumer_drop : forall slots0 p b, p <= length slots0 ->
   drop3 (call consumer_table DEPTH "drop" [] (with_pos slots0 p) b) =
   (let '(fired, b', e) := drop_list b (skipn p slots0) in ((if fired then MPanic else MRet VUnit), b', e)).
 Proof. exact tie_consumer_drop. Qed.
+
+(* ---- T1: the destructors and the methods that release elements are the ones modelled: no other method of these
+        impls is overridden (coq/gen/GenSigs.v gen_impl_methods) ---- *)
+From Coq Require Import String.
+From GA Require Import SigDefs.
+From GAGen Require Import GenSigs.
+Local Open Scope string_scope.
+
+Theorem C05_source_methods :
+  methods_of "Drop for GenericArrayIter<T,N>" = Some ["drop"] /\
+  methods_of "Clone for GenericArrayIter<T,N>" = Some ["clone"] /\
+  methods_of "Iterator for GenericArrayIter<T,N>" = Some ["next"; "fold"; "size_hint"; "count"; "nth"; "last"] /\
+  methods_of "DoubleEndedIterator for GenericArrayIter<T,N>" = Some ["next_back"; "rfold"; "nth_back"].
+Proof. repeat split. Qed.
